@@ -243,6 +243,18 @@ def execute(sc):
                                   (ix, half, g4.min(0).tolist(), g4.max(0).tolist(), l4.tolist(), u4.tolist(), ls.tolist(), us.tolist()), step=ix))
                     return None
                 probes["tetraploid_view_checked"] = probes.get("tetraploid_view_checked", 0) + 1
+                # the same pooled population as a phased matrix with four chromosome copies per individual
+                m4 = numpy.concatenate([mat[:, :half, :], mat[:, half:2 * half, :]], axis=0)
+                p4 = type(pop)(m4, taxa=obj(["q%d" % i for i in range(half)]), taxa_grp=numpy.zeros(half, dtype=int), vrnt_chrgrp=pop.vrnt_chrgrp,
+                               vrnt_phypos=pop.vrnt_phypos, vrnt_xoprob=pop.vrnt_xoprob, ploidy=4)
+                up, lp = numpy.array(gm.usl(p4), dtype=float), numpy.array(gm.lsl(p4), dtype=float)
+                gp = numpy.array(gm.gebv(p4).unscale(), dtype=float) - loc[None, :]
+                if (gp.shape != g4.shape or numpy.any(~(numpy.abs(gp - g4) <= tol4[None, :] + 16 * EPS * numpy.abs(loc)[None, :])) or numpy.any(~(numpy.abs(up - u4) <= tol4))
+                        or numpy.any(~(numpy.abs(lp - l4) <= tol4))):
+                    V.append(viol("limits-independent-of-input-form", C + ".usl/lsl", "tetraploid-phased-vs-unphased",
+                                  "generation %d: four-copy phased view of %d taxa: GEBVs %s vs dosage x effects %s; limits [%s, %s] vs unphased [%s, %s]" %
+                                  (ix, half, gp.tolist()[:3], g4.tolist()[:3], lp.tolist(), up.tolist(), l4.tolist(), u4.tolist()), step=ix))
+                    return None
             except Exception as e:
                 V.append(viol("limits-computable", C + ".usl/lsl", "tetraploid-unphased|raises:%s" % type(e).__name__, "generation %d: %s: %s" % (ix, type(e).__name__, e), step=ix))
                 return None
